@@ -341,6 +341,14 @@ impl Cartesian<'_> {
             return Err("Stopped".into());
         }
 
+        // Cartesian waypoints were computed without collision checks so far, check them now
+        if trace
+            .par_iter()
+            .any(|step| self.robot.collides(&step.joints))
+        {
+            return Err("Collision detected on the planned path".into());
+        }
+
         Ok(trace)
     }
 
